@@ -358,10 +358,52 @@ func init() {
 			return Tuple{tFalse, in.mkError("regexp: " + err.Error())}
 		}
 		if !s.IsConcrete() {
-			return Tuple{in.freshVar("regexp", SBool, 1), Iface{}}
+			return Tuple{in.freshVar("_regexp", SBool, 1), Iface{}}
 		}
 		return Tuple{mkBool(re.MatchString(s.Concrete())), Iface{}}
 	}
+	// *regexp.Regexp as an opaque object: the pattern lives in its first field
+	// (expr); matching is native on concrete subjects and an unconstrained Bool
+	// on symbolic ones.
+	m["regexp.Compile"] = func(in *Interp, fr *Frame, args []Value, call *ssa.CallCommon) Value {
+		p := concreteStr(args[0], "regexp pattern")
+		in.stubsHit["regexp (native on concrete subjects; unconstrained Bool on symbolic subjects)"] = true
+		if _, err := regexp.Compile(p); err != nil {
+			return Tuple{Ptr{}, in.mkError("error parsing regexp: " + err.Error())}
+		}
+		t := in.P.byPath["regexp"].Type("Regexp").Type()
+		o := in.allocType(t, "regexp.Regexp")
+		o.cells[0] = mkStr(p)
+		return Tuple{Ptr{o, 0}, Iface{}}
+	}
+	m["regexp.MustCompile"] = func(in *Interp, fr *Frame, args []Value, call *ssa.CallCommon) Value {
+		r := m["regexp.Compile"](in, fr, args, call).(Tuple)
+		if r[1].(Iface).t != nil {
+			panic(targetPanic{msg: "regexp: Compile failed", val: r[1]})
+		}
+		return r[0]
+	}
+	m["(*regexp.Regexp).MatchString"] = func(in *Interp, fr *Frame, args []Value, call *ssa.CallCommon) Value {
+		p := args[0].(Ptr)
+		if p.obj == nil {
+			panic(in.rtPanic("invalid memory address or nil pointer dereference"))
+		}
+		re := regexp.MustCompile(p.obj.cells[p.off].(Str).Concrete())
+		s := args[1].(Str)
+		if !s.IsConcrete() {
+			return in.freshVar("_regexp", SBool, 1)
+		}
+		return mkBool(re.MatchString(s.Concrete()))
+	}
+	m["(*regexp.Regexp).String"] = func(in *Interp, fr *Frame, args []Value, call *ssa.CallCommon) Value {
+		p := args[0].(Ptr)
+		return p.obj.cells[p.off]
+	}
+	m["context.Background"] = func(in *Interp, fr *Frame, args []Value, call *ssa.CallCommon) Value {
+		t := in.P.byPath["context"].Type("backgroundCtx").Type()
+		return Iface{t: in.canon(t), v: in.ti.zero(t)}
+	}
+	m["context.TODO"] = m["context.Background"]
 	m["os.Getenv"] = func(in *Interp, fr *Frame, args []Value, call *ssa.CallCommon) Value { return Str{} }
 	m["encoding/base64.(*Encoding).EncodeToString"] = nil
 	delete(m, "encoding/base64.(*Encoding).EncodeToString")
